@@ -86,27 +86,41 @@ async def scenario(loop, plan, out):
     if cap.get("fw_small"):
         # the firmware's own table sizes are small; the application has configured the NCP at connect time, as it does
         await ezsp.write_config(app.config["ezsp_config"])
+    def build_info(ni):
+        keys = [zs.Key(key=zt.KeyData.deserialize(bytes.fromhex(k["key"]))[0], partner_ieee=zt.EUI64.deserialize(bytes.fromhex(k["partner"]))[0])
+                for k in ni["link_keys"]]
+        children = [zt.EUI64.deserialize(bytes.fromhex(c["ieee"]))[0] for c in ni["children"]]
+        nwk_addresses = {zt.EUI64.deserialize(bytes.fromhex(c["ieee"]))[0]: zt.NWK(c["nwk"]) for c in ni["children"] if c["nwk"] is not None}
+        # "unknown" is either zigpy's own constant or an equal value that came from somewhere else (a backup parsed from JSON)
+        tc_partner = zt.EUI64.UNKNOWN if ni["tc_addr"] is None else zt.EUI64.deserialize(bytes.fromhex(ni["tc_addr"]))[0]
+        stack_specific = {}
+        if ni["hashed_tclk"] is not None:
+            stack_specific = {"ezsp": {"hashed_tclk": ni["hashed_tclk"]}}
+        if plan.get("allow_burn"):
+            stack_specific.setdefault("ezsp", {})["i_understand_i_can_update_eui64_only_once_and_i_still_want_to_do_it"] = True
+        network_info = zs.NetworkInfo(
+            extended_pan_id=zt.ExtendedPanId.deserialize(bytes.fromhex(ni["epid"]))[0], pan_id=zt.PanId(ni["pan"]), nwk_update_id=ni["update_id"],
+            nwk_manager_id=zt.NWK(0), channel=ni["channel"], channel_mask=zt.Channels(ni["mask"]), security_level=5,
+            network_key=zs.Key(key=zt.KeyData.deserialize(bytes.fromhex(ni["nwk_key"]))[0], seq=ni["nwk_seq"], tx_counter=ni["nwk_fc"]),
+            tc_link_key=zs.Key(key=zt.KeyData.deserialize(bytes.fromhex(ni["tclk"]))[0], partner_ieee=tc_partner, tx_counter=ni["tclk_fc"]),
+            key_table=keys, children=children, nwk_addresses=nwk_addresses, stack_specific=stack_specific)
+        return network_info
+
     ni = plan["net"]
-    keys = [zs.Key(key=zt.KeyData.deserialize(bytes.fromhex(k["key"]))[0], partner_ieee=zt.EUI64.deserialize(bytes.fromhex(k["partner"]))[0])
-            for k in ni["link_keys"]]
-    children = [zt.EUI64.deserialize(bytes.fromhex(c["ieee"]))[0] for c in ni["children"]]
-    nwk_addresses = {zt.EUI64.deserialize(bytes.fromhex(c["ieee"]))[0]: zt.NWK(c["nwk"]) for c in ni["children"] if c["nwk"] is not None}
-    # "unknown" is either zigpy's own constant or an equal value that came from somewhere else (a backup parsed from JSON)
-    tc_partner = zt.EUI64.UNKNOWN if ni["tc_addr"] is None else zt.EUI64.deserialize(bytes.fromhex(ni["tc_addr"]))[0]
-    stack_specific = {}
-    if ni["hashed_tclk"] is not None:
-        stack_specific = {"ezsp": {"hashed_tclk": ni["hashed_tclk"]}}
-    if plan.get("allow_burn"):
-        stack_specific.setdefault("ezsp", {})["i_understand_i_can_update_eui64_only_once_and_i_still_want_to_do_it"] = True
-    network_info = zs.NetworkInfo(
-        extended_pan_id=zt.ExtendedPanId.deserialize(bytes.fromhex(ni["epid"]))[0], pan_id=zt.PanId(ni["pan"]), nwk_update_id=ni["update_id"],
-        nwk_manager_id=zt.NWK(0), channel=ni["channel"], channel_mask=zt.Channels(ni["mask"]), security_level=5,
-        network_key=zs.Key(key=zt.KeyData.deserialize(bytes.fromhex(ni["nwk_key"]))[0], seq=ni["nwk_seq"], tx_counter=ni["nwk_fc"]),
-        tc_link_key=zs.Key(key=zt.KeyData.deserialize(bytes.fromhex(ni["tclk"]))[0], partner_ieee=tc_partner, tx_counter=ni["tclk_fc"]),
-        key_table=keys, children=children, nwk_addresses=nwk_addresses, stack_specific=stack_specific)
+    network_info = build_info(ni)
     node_ieee = {"same": zt.EUI64.deserialize(sim.eui64())[0], "unknown": zt.EUI64.UNKNOWN,
                  "other": zt.EUI64.deserialize(bytes.fromhex("c1c2c3c4c5c6c7c8"))[0]}[plan["node_ieee"]]
     node_info = zs.NodeInfo(nwk=zt.NWK(0), ieee=node_ieee, logical_type=zdo_t.LogicalType.Coordinator)
+    if plan.get("earlier"):
+        # an earlier restore + read-back of another backup through the SAME application object (possibly of the same network
+        # at a later moment: same network key, higher counters, other devices): nothing of it may survive into the next one
+        try:
+            ei = build_info(plan["earlier"])
+            await asyncio.wait_for(app.write_network_info(network_info=ei, node_info=zs.NodeInfo(nwk=zt.NWK(0), ieee=node_ieee, logical_type=zdo_t.LogicalType.Coordinator)), 5000)
+            await asyncio.wait_for(app.load_network_info(load_devices=True), 5000)
+            out["earlier"] = "ok"
+        except Exception as ex:
+            out["earlier"] = type(ex).__name__
     if plan.get("read_first"):
         # the application has already read whatever the NCP held before (start-up does that): nothing of it may show up
         # in what is read back after the restore
@@ -115,6 +129,7 @@ async def scenario(loop, plan, out):
             out["read_first"] = "ok"
         except Exception as ex:
             out["read_first"] = type(ex).__name__
+    out["log0"] = len(sim.log)
     out["eui_before"] = sim.eui64()
     out["node_ieee_written"] = bytes(node_ieee.serialize())
     out["rewritable"] = bool(cap["nv3"] and cap["token_cmds"] and "getTokenData" in sim.cls.COMMANDS)
@@ -175,7 +190,7 @@ def check(plan) -> Result:
     rd = out["read"]
     rewrote = any((n == "setTokenData" and bytes(a.get("token_data", b"")) not in (b"", b"\xff" * 8)) or
                   (n == "setMfgToken" and a.get("tokenId") is not None and a["tokenId"].name == "MFG_CUSTOM_EUI_64")
-                  for _, n, a in sim.log)
+                  for _, n, a in sim.log[out.get("log0", 0):])
 
     def cmp(field, got, want):
         if got != want:
@@ -258,6 +273,8 @@ def check(plan) -> Result:
         r.cls("read-twice")
     if out.get("read_first"):
         r.cls("application-had-read-the-earlier-network:" + out["read_first"])
+    if out.get("earlier"):
+        r.cls("earlier-restore-through-the-same-application:" + out["earlier"])
     if ni["link_keys"]:
         r.cls("link-keys")
     if ni["children"]:
@@ -314,6 +331,14 @@ def plans(draw, versions=tuple(range(4, 15))):
         plan["reload"] = True
     if cap.get("prior") and draw(st.booleans()):
         plan["read_first"] = True
+    if draw(st.integers(0, 2)) == 0:
+        same_key = draw(st.booleans())
+        plan["earlier"] = dict(net, nwk_key=net["nwk_key"] if same_key else draw(key16),
+                               nwk_fc=draw(st.sampled_from([net["nwk_fc"], min(net["nwk_fc"] + 70000, 2**32 - 1), 2**32 - 1, 0])),
+                               nwk_seq=draw(st.sampled_from([net["nwk_seq"], (net["nwk_seq"] + 1) % 256])),
+                               update_id=draw(st.integers(0, 255)), pan=draw(st.integers(0, 0xFFFE)),
+                               link_keys=[{"partner": p, "key": draw(key16)} for p in draw(st.lists(eui8, max_size=min(ktab, 3), unique=True))],
+                               children=[{"ieee": c, "nwk": draw(st.integers(1, 0xFFF7))} for c in draw(st.lists(eui8, max_size=3, unique=True))])
     if nkeys >= 2 and draw(st.integers(0, 2)) == 0:
         plan["refuse_key"] = draw(st.integers(0, nkeys - 2))
     if nkeys >= 2 and draw(st.booleans()):
